@@ -19,14 +19,36 @@ KEYS = ['a', 'b']
 N = len(PRISTINE)
 
 
+BIG = {'on': False}
+
+
 def pristine():
-    return copy.deepcopy(PRISTINE)
+    data = copy.deepcopy(PRISTINE)
+    if BIG['on']:
+        import numpy as np
+        for i, ex in enumerate(data):
+            ex['arr'] = np.arange(8192, dtype=np.float64) + i       # 64 KiB contiguous buffer
+    return data
+
+
+def deq(a, b):
+    """Deep equality that understands numpy arrays."""
+    import numpy as np
+    if isinstance(a, np.ndarray) or isinstance(b, np.ndarray):
+        return isinstance(a, np.ndarray) and isinstance(b, np.ndarray) and a.shape == b.shape and bool((a == b).all())
+    if isinstance(a, dict):
+        return isinstance(b, dict) and a.keys() == b.keys() and all(deq(a[k], b[k]) for k in a)
+    if isinstance(a, (list, tuple)):
+        return type(a) is type(b) and len(a) == len(b) and all(deq(x, y) for x, y in zip(a, b))
+    return a == b
 
 
 def make(obj, tmp):
     """Returns (dataset, keyed, original container)."""
     import lazy_dataset
     kind, mode = obj
+    BIG['on'] = kind.endswith('+array')
+    kind = kind.replace('+array', '')
     data = pristine()
     if kind == 'dict':
         orig = {k: v for k, v in zip(KEYS, data)}
@@ -72,7 +94,9 @@ def _first(t):
 
 OBJECTS = [('dict', 'pickle'), ('dict', 'copy'), ('list', 'pickle'), ('list', 'copy'), ('list', 'wu'),
            ('cache', None), ('cache-of-copy', None), ('diskcache', None), ('eager-cache', None),
-           ('zip-cache', None), ('pair-cache', None), ('list-of-tuples', None), ('key-zip-diskcache', None)]
+           ('zip-cache', None), ('pair-cache', None), ('list-of-tuples', None), ('key-zip-diskcache', None),
+           ('cache+array', None), ('dict+array', 'pickle'), ('list+array', 'wu'), ('diskcache+array', None),
+           ('eager-cache+array', None)]
 
 PATHS = ['idx', 'neg', 'key', 'slice', 'iter', 'items', 'copy']
 
@@ -112,6 +136,8 @@ def mutate(ex, depth):
     else:
         ex['x'].append(99)
         ex['y']['z'] = 'MUT'
+        if 'arr' in ex:
+            ex['arr'][:3] = -1.0          # in place, inside the (possibly shared) buffer
 
 
 def read_all(ds, keyed):
@@ -123,7 +149,7 @@ def read_all(ds, keyed):
                 got = access(ds, keyed, path, e)
             except Exception as ex:     # noqa: BLE001
                 return path, e, f'raised {type(ex).__name__}: {str(ex)[:60]}'
-            if got is not None and got != want[e]:
+            if got is not None and not deq(got, want[e]):
                 return path, e, got
     return None
 
@@ -140,12 +166,13 @@ def check_object(args):
                                           {'engine': 'histmc', 'object': list(obj), 'history': hist}).to_json()
     try:
         events = [(p, e, d) for p in PATHS for e in range(N) for d in (1, 2)]
-        if obj[0] == 'diskcache' and tier == 'quick':
+        if 'diskcache' in obj[0] and tier == 'quick':
             events = [ev for ev in events if ev[1] == 0 or ev[0] in ('idx', 'iter')]
         _, keyed, _ = make(obj, tmp)
         if not keyed:
             events = [ev for ev in events if ev[0] not in ('key', 'items')]
-        serialising = obj in (('dict', 'pickle'), ('list', 'pickle'), ('list', 'wu'))
+        serialising = obj in (('dict', 'pickle'), ('list', 'pickle'), ('list', 'wu'), ('dict+array', 'pickle'),
+                              ('list+array', 'wu'))
         for d in range(1, depth + 1):
             for hist in itertools.product(events, repeat=d):
                 st['states'] += 1
@@ -159,7 +186,7 @@ def check_object(args):
                         bad(f'access-raises/{path}/{type(ex).__name__}', f'history {list(hist[:n + 1])}: {ex}',
                             [list(h) for h in hist[:n + 1]])
                         break
-                    if got != want[e]:
+                    if not deq(got, want[e]):
                         prev = hist[n - 1][0] if n else None
                         bad(f'stored-data-changed/{obj[0]}-{obj[1]}/read-by-{path}',
                             f'history {list(hist[:n + 1])}: access by {path} of example {e} returned {got}',
@@ -200,22 +227,38 @@ def run(tier):
     tasks = []
     for obj in OBJECTS:
         d = depth
-        if obj[0] == 'diskcache':
+        if 'diskcache' in obj[0] or obj[0].endswith('+array'):
             d = min(depth, 2)
         tasks.append((obj, d, tier))
     total = collections.Counter()
     for st, viols in common.pmap(check_object, tasks):
         total.update(st)
         res.violations.extend(common.Violation.from_json(v) for v in viols)
-    res.violations.sort(key=lambda v: (len(v.replay['history']), v.key))
+    # two / three threads fetch the same cold example concurrently and mutate what they got (E2, all schedules of
+    # the visible operations with up to 2 preemptions, and every source line with 1 preemption)
+    from vf.checks import _e2
+    cfgs = [dict(entry='cache_threads', kind=k, n=2, w=w, b=1, index=i, copies=c)
+            for k in ('cache', 'diskcache') for w, i, c in ((2, 0, False), (2, 1, True), (3, 0, True))
+            if not (k == 'diskcache' and w == 3 and tier == 'quick')]
+    _e2.run_matrix('C09', 'oracle_isolated', [(c, 'B', 2) for c in cfgs], res,
+                   'threads on one cold cache entry: visible operations, preemption bound 2', cap=60000)
+    deep = [c for c in cfgs if c['w'] == 2 and (tier == 'thorough' or (c['kind'] == 'cache' and not c['copies']))]
+    _e2.run_matrix('C09', 'oracle_isolated', [(c, 'L', 2) for c in deep], res,
+                   'threads on one cold cache entry: every source line, preemption bound 2', cap=200000)
+    _e2.run_matrix('C09', 'oracle_isolated', [(c, 'L', 1) for c in cfgs if c['w'] == 2 and c not in deep], res,
+                   'threads on one cold cache entry: every source line, preemption bound 1', cap=60000)
+    res.violations.sort(key=lambda v: (len(v.replay.get('history', [])), v.key))
+    cov = res.coverage
+    total['states'] += cov.get('states', 0)
+    total['transitions'] += cov.get('transitions', 0)
     res.coverage.update(
-        states=total['states'], transitions=total['transitions'], traces_validated_against_impl=total['states'],
-        exhaustive=True,
+        states=total['states'], transitions=total['transitions'],
+        traces_validated_against_impl=total['states'] + cov.get('executions', 0), exhaustive=True,
         rule=f'states = histories: every sequence of length 1..{depth} of events (access path in {PATHS}, example, '
              f'mutation depth 1|2) for each of {len(OBJECTS)} storage objects; after each event the accessed value and at the '
              f'end ALL access paths are compared with the pristine snapshot; transitions = events',
         samples=[{'object': ['cache', None], 'history': [['idx', 0, 2], ['neg', 0, 1]]},
-                 {'object': ['list', 'wu'], 'history': [['iter', 1, 2], ['slice', 1, 2]]}])
+                 {'object': ['list', 'wu'], 'history': [['iter', 1, 2], ['slice', 1, 2]]}] + cov.get('samples', []))
     res.assumptions = ["immutable_warranty='copy' stores the caller's objects (documented); mutation of the original container "
                        "is only judged for the serialising modes pickle / wu"]
     return res
@@ -223,6 +266,9 @@ def run(tier):
 
 def replay(data):
     r = data['replay']
+    if r.get('engine') == 'schedmc':
+        from vf.checks import _e2
+        return _e2.replay('C09', data)
     res = common.Result()
     tmp = tempfile.mkdtemp(prefix='verif_c09_', dir='/var/tmp')
     try:
@@ -231,7 +277,7 @@ def replay(data):
         want = pristine()
         for path, e, md in r['history']:
             got = access(ds, keyed, path, e)
-            if got != want[e]:
+            if not deq(got, want[e]):
                 res.violations.append(common.Violation('C09', f'stored-data-changed/{obj[0]}-{obj[1]}/read-by-{path}',
                                                        f'{got}', r))
                 break
